@@ -50,7 +50,9 @@ pub fn eval(sc: &Scenario) -> CaseResult {
     r.classes = base_classes(sc, &out);
     r.counters = base_counters(&out);
     r.summary = summary(sc, &out);
-    r.violation = first_violation(&out, &["C18", "C01", "C02"]);
+    // (a game that is made to diverge on purpose fails C01's comparison by construction)
+    let corrupt = sc.ops.iter().any(|o| matches!(o, Op::Corrupt { .. }));
+    r.violation = first_violation(&out, if corrupt { &["C18", "C02"] } else { &["C18", "C01", "C02"] });
     let bs = bounds(sc);
     let all: Vec<(String, &[BufMax; 2])> = out.peers.iter().enumerate().map(|(i, p)| (format!("peer{i}"), &p.bufmax)).chain(out.specs.iter().enumerate().map(|(i, s)| (format!("spec{i}"), &s.bufmax))).collect();
     if r.violation.is_none() {
@@ -154,7 +156,13 @@ pub fn gen(tier: Tier) -> BoxedStrategy<Scenario> {
                     let tick = 100 + idx(t, (sc.ticks / 3) as usize) as u32;
                     sc.ops.push(Op::Kill { tick, peer: 1 });
                 }
-                0 => sc.drain = false,
+                0 => {
+                    sc.drain = false;
+                    if sc.peers.len() >= 2 && sc.desync > 0 && t % 2 == 0 {
+                        // a game that really diverges: DesyncDetected events pile up undrained as well
+                        sc.ops.push(Op::Corrupt { peer: 0, frame: 5 });
+                    }
+                }
                 1 if !sc.specs.is_empty() => {
                     // a spectator that stops acknowledging: its outgoing link dies
                     let tick = 100 + idx(t, (sc.ticks / 2) as usize) as u32;
